@@ -4,6 +4,11 @@
   implementation compared with Go on every case); the theorems below are about what is hashed and
   about every number the library reports.
 -/
+import BtcVerif.Props.GuardPins.P_varint
+import BtcVerif.Props.GuardPins.P_blocks_merkle
+import BtcVerif.Props.GuardPins.P_blocks_blockheader
+import BtcVerif.Props.GuardPins.P_blocks
+import BtcVerif.Props.GuardPins.P_tx
 import BtcVerif.Proofs.Sizes
 import BtcVerif.Proofs.Merkle
 import BtcVerif.Proofs.Target
